@@ -15,7 +15,7 @@ func init() {
 		ID:          "C05",
 		Explanation: "Decided: (roots) imports, init, main of package main, multi-value and effectful variable initialisers and linkname implementations are always alive, and the effect test covers every expression form that can call, receive or panic; (record) each function that hands out a JavaScript reference to a package-level object, generic instance, anonymous type, unexported method, method expression or local type records the DCE dependency first; (scope) every code field of a Decl that is produced by translation is filled inside CollectDCEDeps, except reviewed always-alive or self-referential sites; (names) declared names and recorded dependencies come from the same filter function and the selector clears exactly the filters it indexed; (emit) only alive decls are written and every code field is written; (link) what the prelude references inside compiled packages is rooted or guarded. NOT decided: that the filter strings identify declarations injectively for all type spellings; that recorded dependencies are complete for every program.",
 		Assumptions: []string{"a Decl without SetName is alive (dce.Info.isAlive)"},
-		Rules:       []RuleFunc{ruleC05Roots, ruleC05Record, ruleC05Scope, ruleC05Names, ruleAssembly, ruleL7, ruleNamedLookThrough, ruleC05EffectsWalk, ruleC05LinknamesBeforeSelection, ruleC05NestedReplacements},
+		Rules:       []RuleFunc{ruleC05Roots, ruleC05Record, ruleC05Scope, ruleC05Names, ruleAssembly, ruleL7, ruleNamedLookThrough, ruleC05EffectsWalk, ruleC05LinknamesBeforeSelection, ruleC05NestedReplacements, ruleC05DepsInsideCollector},
 	})
 }
 
